@@ -4,9 +4,11 @@ import (
 	"crypto/ed25519"
 	"encoding/hex"
 	"fmt"
+	"github.com/biscuit-auth/biscuit-go/v2/datalog"
 	"os"
 	"path/filepath"
 	"sort"
+	"strings"
 
 	biscuit "github.com/biscuit-auth/biscuit-go/v2"
 
@@ -356,6 +358,91 @@ func c07AddBlockPath(c *core.C, f *Family) {
 	}
 }
 
+// c07CustomBaseTable: a token composed over an application symbol table (WithSymbols) that also
+// lists names of the default table and repeats an entry - legal, if untidy. The builder and the
+// reader (Unmarshaler with the same table) number symbols the same way: the re-loaded token
+// prints and authorizes like the one in memory, before and after an attenuation.
+func c07CustomBaseTable(c *core.C) {
+	r := c.R
+	tables := [][]string{
+		{"tenant", "acme"},
+		{"tenant", "read", "acme"},                 // "read" is a default symbol
+		{"resource", "operation", "right", "acme"}, // the old default table
+		{"tenant", "acme", "tenant"},               // a repeated entry
+		{"role", "query", "tenant", "acme", "acme"},
+	}
+	tab := tables[c.Idx%len(tables)]
+	base := &datalog.SymbolTable{}
+	for _, n := range tab {
+		*base = append(*base, n)
+	}
+	_, priv := lib.KeyPair(c.Seed, fmt.Sprintf("c07-custom-%d", c.Idx))
+	pub := priv.Public().(ed25519.PublicKey)
+	rng := lib.NewDetRand(c.Seed, fmt.Sprintf("c07-custom-rng-%d", c.Idx))
+	var tok *biscuit.Biscuit
+	var err error
+	if pi := lib.Try(func() {
+		bld := biscuit.NewBuilder(priv, biscuit.WithRNG(rng), biscuit.WithSymbols(base.Clone()))
+		_ = bld.AddAuthorityFact(ast.P("right", ast.Str("file1"), ast.Str("read")).LibFact())
+		_ = bld.AddAuthorityFact(ast.P("tenant", ast.Str("acme"), ast.Str(fmt.Sprintf("fresh_%d", r.Intn(9)))).LibFact())
+		_ = bld.AddAuthorityCheck(ast.Check{Queries: []ast.Rule{{Head: ast.P("query"), Body: []ast.Pred{ast.P("tenant", ast.Var("t"), ast.Var("u"))}}}}.Lib())
+		if tok, err = bld.Build(); err != nil {
+			return
+		}
+		if r.Intn(2) == 0 {
+			bb := tok.CreateBlock()
+			_ = bb.AddFact(ast.P("added", ast.Str("another_fresh"), ast.Str("acme")).LibFact())
+			tok, err = tok.Append(rng, bb.Build())
+		}
+	}); pi != nil {
+		c.Violate("custom-table-panic/"+pi.Site, pi.Msg, map[string]any{"table": tab})
+		return
+	}
+	if err != nil {
+		c.Violate("build-refused", err.Error(), map[string]any{"table": tab})
+		return
+	}
+	auths := []ast.AuthContent{
+		{Policies: []ast.Policy{allowAll}},
+		{Checks: []ast.Check{{Queries: []ast.Rule{{Head: ast.P("query"), Body: []ast.Pred{ast.P("right", ast.Str("file1"), ast.Str("read"))}}}}}, Policies: []ast.Policy{allowAll}},
+		{Checks: []ast.Check{{Queries: []ast.Rule{{Head: ast.P("query"), Body: []ast.Pred{ast.P("tenant", ast.Str("acme"), ast.Var("x"))}}}}}, Policies: []ast.Policy{allowAll}},
+	}
+	view := func(b *biscuit.Biscuit) string {
+		out := fmt.Sprint(b.Code())
+		for _, a := range auths {
+			out += " | " + string(lib.Observe(b, pub, a, nil).Class)
+		}
+		return out
+	}
+	var mem, rel string
+	if pi := lib.Try(func() {
+		mem = view(tok)
+		ser, err := tok.Serialize()
+		if err != nil {
+			rel = "serialize: " + err.Error()
+			return
+		}
+		rb, err := (&biscuit.Unmarshaler{Symbols: base.Clone()}).Unmarshal(ser)
+		if err != nil {
+			rel = "unmarshal: " + err.Error()
+			return
+		}
+		rel = view(rb)
+	}); pi != nil {
+		c.Violate("custom-table-panic/"+pi.Site, pi.Msg, map[string]any{"table": tab})
+		return
+	}
+	c.Eval(2)
+	if mem != rel {
+		c.Violate("unmarshal-changes/custom-base-table", fmt.Sprintf("base table %v: in memory %s, after Serialize and Unmarshaler{Symbols: table} %s", tab, core.Head(mem, 300), core.Head(rel, 300)), map[string]any{"table": tab, "in_memory": mem, "re_loaded": rel})
+	}
+	if !strings.Contains(mem, "OK") {
+		c.Violate("custom-table-control", "the token composed over the custom table does not authorize at all: "+core.Head(mem, 300), map[string]any{"table": tab})
+	}
+	c.Count("custom_base_table_tokens", 1)
+	c.NT(fmt.Sprintf("custom-table/%v/%d", tab, c.Idx%7))
+}
+
 func c07Run(c *core.C) {
 	if c.Idx == 0 {
 		c07Samples(c)
@@ -372,6 +459,7 @@ func c07Run(c *core.C) {
 		return
 	}
 	c07AddBlockPath(c, f)
+	c07CustomBaseTable(c)
 	for i := range f.Tokens {
 		c07CheckToken(c, f, i)
 	}
